@@ -461,8 +461,8 @@ example : let x := processKick cfg 2 (str "#c") [str "pat"] none x0
 -- he can kick neither the founder nor himself (a half-operator), and `out` is no member
 example : let x := processKick cfg 2 (str "#c") [str "alice", str "hank", str "out"] (some (str "bye")) x0
     x.queued = [] ∧ chanAfter x = some chan ∧
-    x.direct = [str ":irc.irc 972 hank :Can not do command", str ":irc.irc 972 hank :Can not do command",
-                str ":irc.irc 441 hank out #c :They aren't on that channel"] := by decide
+    x.direct = [(str ":irc.irc " ++ Reply.ErrCannotDoCommand972 (client := str "hank")), (str ":irc.irc " ++ Reply.ErrCannotDoCommand972 (client := str "hank")),
+                (str ":irc.irc " ++ Reply.ErrUserNotInChannel441 (client := str "hank") (nick := str "out") (channel := str "#c"))] := by decide
 
 -- the founder kicks the half-operator and the voiced member, with a comment; ranks go too
 example : let x := processKick cfg 1 (str "#c") [str "hank", str "vic", str "hank"] (some (str "bye")) x0
@@ -477,11 +477,11 @@ example : let x := processKick cfg 1 (str "#c") [str "hank", str "vic", str "han
 -- voice, plain member and outsider cannot kick
 example : let x := processKick cfg 3 (str "#c") [str "pat"] none x0
     x.w.channels = x0.w.channels ∧ x.queued = [] ∧
-    x.direct = [str ":irc.irc 482 vic #c :You're not channel operator"] := by decide
+    x.direct = [(str ":irc.irc " ++ Reply.ErrChanOpPrivsNeeded482 (client := str "vic") (channel := str "#c"))] := by decide
 example : (processKick cfg 5 (str "#c") [str "pat"] none x0).direct =
-    [str ":irc.irc 442 out #c :You're not on that channel"] := by decide
+    [(str ":irc.irc " ++ Reply.ErrNotOnChannel442 (client := str "out") (channel := str "#c"))] := by decide
 example : (processKick cfg 5 (str "#x") [str "pat"] none x0).direct =
-    [str ":irc.irc 403 out #x :No such channel"] := by decide
+    [(str ":irc.irc " ++ Reply.ErrNoSuchChannel403 (client := str "out") (channel := str "#x"))] := by decide
 
 def topicMsg : Message := { source := none, command := str "TOPIC", params := [str "#c", str "hello"] }
 def inviteMsg : Message := { source := none, command := str "INVITE", params := [str "out", str "#c"] }
@@ -496,35 +496,35 @@ example : let x := processTopic cfg 4 (str "#c") (some (str "hello")) topicMsg x
 def x0t : Ctx := { w := (processMode cfg 2 (str "#c") [(str "+t", [])] x0).w }
 example : let x := processTopic cfg 4 (str "#c") (some (str "hello")) topicMsg x0t
     x.w.channels = x0t.w.channels ∧ x.queued = [] ∧
-    x.direct = [str ":irc.irc 482 pat #c :You're not channel operator"] := by decide
+    x.direct = [(str ":irc.irc " ++ Reply.ErrChanOpPrivsNeeded482 (client := str "pat") (channel := str "#c"))] := by decide
 example : let x := processTopic cfg 2 (str "#c") (some (str "hello")) topicMsg x0t
     (chanAfter x).map (·.topic) = some (some { topic := str "hello", nick := str "hank" }) := by decide
 example : (processTopic cfg 5 (str "#c") (some (str "hello")) topicMsg x0).direct =
-    [str ":irc.irc 442 out #c :You're not on that channel"] := by decide
+    [(str ":irc.irc " ++ Reply.ErrNotOnChannel442 (client := str "out") (channel := str "#c"))] := by decide
 -- the read form shows what was stored
 example : (processTopic cfg 3 (str "#c") none topicMsg
       { w := (processTopic cfg 4 (str "#c") (some (str "hello")) topicMsg x0).w }).direct =
-    [str ":irc.irc 332 vic #c :hello", str ":irc.irc 333 vic #c pat 0"] := by decide
+    [(str ":irc.irc " ++ Reply.RplTopic332 (client := str "vic") (channel := str "#c") (topic := str "hello")), (str ":irc.irc " ++ Reply.RplTopicWhoTime333 (client := str "vic") (channel := str "#c") (nick := str "pat") (setat := 0))] := by decide
 example : (processTopic cfg 3 (str "#c") none topicMsg x0).direct =
-    [str ":irc.irc 331 vic #c :No topic is set"] := by decide
+    [(str ":irc.irc " ++ Reply.RplNoTopic331 (client := str "vic") (channel := str "#c"))] := by decide
 
 -- INVITE by the plain member reaches exactly `out` and is recorded
 example : let x := processInvite cfg 4 (str "out") (str "#c") inviteMsg x0
     x.queued = [(5, str ":pat!~pat@h INVITE out #c")] ∧
-    x.direct = [str ":irc.irc 341 pat out #c"] ∧
+    x.direct = [(str ":irc.irc " ++ Reply.RplInviting341 (client := str "pat") (nick := str "out") (channel := str "#c"))] ∧
     (Map.lookup (str "out") x.w.users).map (·.invitedTo) = some [str "#c"] ∧
     x.w.channels = x0.w.channels := by decide
 -- refused: outsider, already on channel, unknown nick, invite-only without operator flag
 example : (processInvite cfg 5 (str "pat") (str "#c") inviteMsg x0).direct =
-    [str ":irc.irc 442 out #c :You're not on that channel"] := by decide
+    [(str ":irc.irc " ++ Reply.ErrNotOnChannel442 (client := str "out") (channel := str "#c"))] := by decide
 example : (processInvite cfg 4 (str "vic") (str "#c") inviteMsg x0).direct =
-    [str ":irc.irc 443 pat vic #c :is already on channel"] := by decide
+    [(str ":irc.irc " ++ Reply.ErrUserOnChannel443 (client := str "pat") (nick := str "vic") (channel := str "#c"))] := by decide
 example : (processInvite cfg 4 (str "nobody") (str "#c") inviteMsg x0).direct =
-    [str ":irc.irc 401 pat nobody :No such nick/channel"] := by decide
+    [(str ":irc.irc " ++ Reply.ErrNoSuchNick401 (client := str "pat") (nick := str "nobody"))] := by decide
 def x0i : Ctx := { w := (processMode cfg 2 (str "#c") [(str "+i", [])] x0).w }
 example : let x := processInvite cfg 2 (str "out") (str "#c") inviteMsg x0i
     x.queued = [] ∧ x.w.users = x0i.w.users ∧
-    x.direct = [str ":irc.irc 482 hank #c :You're not channel operator"] := by decide
+    x.direct = [(str ":irc.irc " ++ Reply.ErrChanOpPrivsNeeded482 (client := str "hank") (channel := str "#c"))] := by decide
 example : (processInvite cfg 1 (str "out") (str "#c") inviteMsg x0i).queued =
     [(5, str ":alice!~alice@h INVITE out #c")] := by decide
 
